@@ -23,8 +23,11 @@ def attempt(A, J, seed):
         return "err", classify_exc(e)
 
 
+_FLOOR = [0.0]      # natural magnitude of the current input (an exact result may vanish by cancellation)
+
+
 def relerr(a, b):
-    sc = max(float(a.abs().max()), float(b.abs().max()), 1e-300)
+    sc = max(float(a.abs().max()), float(b.abs().max()), _FLOOR[0], 1e-300)
     return float((a - b).abs().max()) / sc
 
 
@@ -46,6 +49,7 @@ def one(ctx: Ctx, spec, dtype):
         J = m_int(rng, m, n)
     n = len(J[0])
     Jt = to_tensor(J, dtype)
+    _FLOOR[0] = float(Jt.abs().max())
     pv = None
     if spec.pref is not None and (rng.random() < 0.6 or spec.pref == "weights"):
         pv = [rng.randint(1, 5) for _ in range(m)] if spec.pref != "leak" else [rng.choice([0, 0.25, 0.5, 1]) for _ in range(m)]
@@ -111,6 +115,7 @@ def one_float(ctx: Ctx, spec, dtype, Jt, family):
     """same metamorphic checks on float matrices too large for exact rational orthogonal maps: Householder Q"""
     rng = ctx.rng
     m, n = Jt.shape
+    _FLOOR[0] = float(Jt.abs().max()) * (1e-3 if family.startswith("many-rows") else 1.0)
     pv = None
     if spec.pref == "weights":
         pv = [rng.choice([-2, -1, 1, 2, 3]) for _ in range(m)]
